@@ -8,6 +8,8 @@ open Proto LLH
       sob  <zb> <s> <b>                           -> ratios
       lam  <opa> <alpha_i>                        -> log Λ_i, stable?(1/0)
       counts <n_events arg | -> <raw events> <selected events>   -> N N' N-N'
+      sel  <opa> <n_events arg | -> <ns> <Rs of all raw events> <keep 0/1 list>   -> as llr, through evalSel
+      chk  <opa> <N> <ns> <Rs>                    -> none | value   (llrChecked)
 -/
 def sumAbs (opa : Float) (N : Nat) (ns : Float) (Rs : List Float) : Float :=
   (Rs.map (fun R => (logLambdaI opa ns (xOfRatio N R)).abs)).foldl (· + ·) 0
@@ -25,6 +27,17 @@ def answer (line : String) : String :=
   | ["sob", zb, s, b] => fListD fF (List.zipWith (ratioSOB (pF zb)) (pList pF s) (pList pF b))
   | ["lam", opa, a] =>
       s!"{fF (lamOfAlpha (pF opa) (pF a))} {fB (decide (pF opa - 1 < pF a))}"
+  | ["sel", opa, narg, ns, rs, keep] =>
+      let a : Option Nat := if narg == "-" then none else some (pN narg)
+      let Rs := pList pF rs
+      let kp := pList pB keep
+      let sel := ((Rs.zip kp).filter (fun p => p.2)).map (fun p => p.1)
+      let N := (trialCounts a Rs.length sel.length).1
+      s!"{fF (evalSel (pF opa) a (pF ns) Rs kp)} {fF (sumAbs (pF opa) N (pF ns) sel)} {nUnstable (pF opa) N (pF ns) sel}"
+  | ["chk", opa, n, ns, rs] =>
+      match llrChecked (pF opa) (pN n) (pF ns) (pList pF rs) with
+      | some v => fF v
+      | none => "none"
   | ["counts", narg, nraw, nsel] =>
       let a : Option Nat := if narg == "-" then none else some (pN narg)
       let c := trialCounts a (pN nraw) (pN nsel)
